@@ -1205,9 +1205,18 @@ def ink_rows(boxes):
         styled = [s_ for s_ in drawn if r['bs' + s_] not in ('none', 'hidden')]
         collapsed_table = r['cls'] in ('TableBox', 'InlineTableBox') and r.get('collapse')
         cell_in_collapsed = r['cls'] == 'TableCellBox' and in_collapsed_table(boxes, n)
-        bm = colour_index(r['bc' + drawn[0]]) if (vis and drawn and not collapsed_table) else None
-        bs = colour_index(r['bc' + styled[0]]) if (vis and styled and not collapsed_table and not cell_in_collapsed) else None
-        rows.append([-1 if v is None else v for v in (bg, bm, tx, bs)])
+        uniform = len(drawn) == 4 and all(r['bs' + s_] == r['bst'] for s_ in 'trbl') and r['bst'] in ('solid', 'double') \
+            and len(set(tuple(r['bc' + s_]) for s_ in 'trbl')) == 1
+        def seq(sides):
+            if not vis or collapsed_table or not sides:
+                return []
+            if uniform:
+                return [colour_index(r['bct'])]
+            return [colour_index(r['bc' + s_]) for s_ in 'blrt' if s_ in sides]      # draw_border: bottom left right top
+        bm = seq(drawn)
+        bs = [] if cell_in_collapsed else seq(styled)
+        rows.append([-1 if bg is None else bg, [(-7 if v is None else v) for v in bm], -1 if tx is None else tx,
+                     [(-7 if v is None else v) for v in bs]])
     return rows
 
 
@@ -1304,8 +1313,8 @@ def ink_tables(pg):
     """(model table, spec table) as Coq terms: box id -> (bg, border, text) colour numbers, -1 = no ink."""
     tm, ts = [], []
     for n, row in enumerate(pg['inkrows']):
-        tm.append('(%d, (%d, %d, %d))' % (n, row[0], row[1], row[2]))
-        ts.append('(%d, (%d, %d, %d))' % (n, row[0], row[3], row[2]))
+        tm.append('(%d, (%d, [%s], %d))' % (n, row[0], '; '.join(map(str, row[1])), row[2]))
+        ts.append('(%d, (%d, [%s], %d))' % (n, row[0], '; '.join(map(str, row[3])), row[2]))
     return '[%s]' % '; '.join(tm), '[%s]' % '; '.join(ts)
 
 
@@ -1331,6 +1340,8 @@ def coq_why(tag, cases, fn):
     with open(path, 'w') as f:
         f.write(PRE + 'Definition cs := [\n%s].\nEval vm_compute in map (%s) cs.\n' % (';\n'.join(cases), fn))
     rc, out = common.sh('coqc -Q %s WV %s' % (common.COQ, path), cwd=d, timeout=300)
+    import shutil
+    shutil.rmtree(d, ignore_errors=True)
     if rc != 0:
         return None
     return parse_pairs_lists(out)
@@ -1405,7 +1416,7 @@ def check(run):
                                         bits_term([(kinds[c], b) for c, b in o['bits'].items()])))
         kept.append((t, o, nodes))
     try:
-        masks = common.eval_cases('c17synth', PRE, 'box * pnode * list (kind * Z)', cases, 'frombox_judge', per_file=60)
+        masks = common.eval_cases('c17synth_%d' % os.getpid(), PRE, 'box * pnode * list (kind * Z)', cases, 'frombox_judge', per_file=60)
         mism = [k for k, m in zip(kept, masks) if m & 1]
         ident = [k for k in kept if not k[1]['identity']]
         run.oblige('corr:frombox-synth(model from_box = StackingContext.from_box, class tables)', not mism and not ident,
@@ -1488,7 +1499,7 @@ def check(run):
         run.oblige('witness:%s reproduces on the implementation' % name, witness_hits.get(name, False),
                    'the refuted theorem of props/C17.v no longer shows on /repo (fixed?) - update model and spec')
     try:
-        masks = common.eval_cases('c17page', PRE, 'box * pnode * list (kind * Z)', page_cases, 'frompage_judge2', per_file=12)
+        masks = common.eval_cases('c17page_%d' % os.getpid(), PRE, 'box * pnode * list (kind * Z)', page_cases, 'frompage_judge2', per_file=12)
         mism = [m_ for m_, k in zip(meta, masks) if k & 1]
         run.oblige('corr:frompage-render(model from_page = StackingContext.from_page on rendered trees)', not mism,
                    'first disagreement: %s' % (mism[0][0]['html'][:2500] if mism else ''))
@@ -1499,7 +1510,7 @@ def check(run):
                 break
         once_bad = [(m_, c) for m_, c, k in zip(meta, page_cases, masks) if k & 8]
         if once_bad:
-            why = coq_why('c17once', [c for _, c in once_bad], 'once_why_page')
+            why = coq_why('c17once_%d' % os.getpid(), [c for _, c in once_bad], 'once_why_page')
             for ((d, pi, pg), _), codes in zip(once_bad, why or [None] * len(once_bad)):
                 lost_rows, lost_grid = expected_lost(pg['nodes'])
                 if codes is None:
@@ -1530,7 +1541,7 @@ def check(run):
     except RuntimeError as exc:
         run.oblige('corr:frompage-render', False, str(exc))
     try:
-        masks = common.eval_cases('c17disp', PRE, 'box * list (Z * (Z * Z * Z)) * list (Z * (Z * Z * Z)) * list Z', disp_cases,
+        masks = common.eval_cases('c17disp_%d' % os.getpid(), PRE, 'box * list (Z * (Z * list Z * Z)) * list (Z * (Z * list Z * Z)) * list Z', disp_cases,
                                   'display_judge', per_file=12)
         mism = [m_ for m_, k in zip(meta, masks) if k & 1]
         run.oblige('corr:display(colour sequence of the content stream = paint list of the model)', not mism,
@@ -1575,7 +1586,7 @@ def replay(data):
             nodes = pg['nodes']
             cases.append('(%s, %s, %s)' % (box_term(nodes), pnode_term(nodes, pg['out']),
                                             bits_term([(i['kind'], i['bits']) for i, _ in nodes])))
-        masks = common.eval_cases('c17replay', PRE, 'box * pnode * list (kind * Z)', cases, 'frompage_judge2', per_file=12)
+        masks = common.eval_cases('c17replay_%d' % os.getpid(), PRE, 'box * pnode * list (kind * Z)', cases, 'frompage_judge2', per_file=12)
         print('replay: Coq masks per page (1 model<>impl, 2 spec<>paint, 4 not well-formed, 8 not painted once):', masks)
         return 1 if bad or any(m & 11 for m in masks) else 0
     if d.get('stream') == 'frombox-synth':
@@ -1585,7 +1596,7 @@ def replay(data):
             return 1
         nodes = synth_nodes(d['tree'])
         kinds = {c: k for c, k, _ in SYNTH_CLASSES}
-        m = common.eval_cases('c17replay', PRE, 'box * pnode * list (kind * Z)',
+        m = common.eval_cases('c17replay_%d' % os.getpid(), PRE, 'box * pnode * list (kind * Z)',
                               ['(%s, %s, %s)' % (box_term(nodes), pnode_term(nodes, o['out']),
                                                  bits_term([(kinds[c], b) for c, b in o['bits'].items()]))], 'frombox_judge')
         print('replay: mask', m)
